@@ -36,10 +36,42 @@ def run(ctx):
         mc_feat.run_amp(ctx, 'C07', 7, 3)
         pipeline.run_corpus(ctx, 220, PREFIXES, seed_offset=7, mutate_opts=amp, kinds=['sine_bursts', 'asym', 'powerlaw_osc', 'two_osc', 'clipped', 'zeroed', 'dc_offset', 'quantised'])
         pipeline.run_large(ctx, PREFIXES, 7, 3, 1, mutate_opts=amp)          # beyond small scopes: long cycles, long recordings
+        exact_thresholds(ctx, 60)
     else:
         mc_feat.run_amp(ctx, 'C07', 8, 4)
         pipeline.run_corpus(ctx, 4000, PREFIXES, seed_offset=7, mutate_opts=amp, max_len=2600)
         pipeline.run_large(ctx, PREFIXES, 7, 12, 6, mutate_opts=amp)          # beyond small scopes: long cycles, long recordings
+        exact_thresholds(ctx, 800)
+
+
+def exact_thresholds(ctx, n):
+    """Second pass: burst_fraction_threshold set to the EXACT fraction k/n of a partially bursting cycle (computed by the harness from the
+    logged detector mask of a first run, never from the library's own quotient), so that "fraction equals the threshold" occurs for
+    fractions like 75/101 whose quotient is not a short binary number; judged by the exact-fraction label clause of Trace_Pipeline."""
+    import gen
+    import record
+    cases = gen.corpus(ctx.seed * 1000 + 77, n, max_len=900, kinds=['sine_bursts', 'asym', 'two_osc', 'powerlaw_osc'],
+                       fs_bands=[(250, (8, 12)), (500, (8, 12)), (1000, (13, 30)), (100, (6, 14)), (187.5, (8, 12))])
+    chosen = []
+    for i, c in enumerate(cases):
+        o = c['opts']
+        o['burst_method'] = 'amp'
+        o['threshold_kwargs'] = {'burst_fraction_threshold': 0.5, 'min_n_cycles': 1 + i % 3}
+        o['burst_kwargs'] = {'amp_threshes': [(0.5, 1.0), (1.0, 1.5), (1.0, 2.0)][i % 3]}
+        try:
+            rec, _ = record.record_compute_features(c)
+        except Exception:
+            continue
+        mask = rec['dt']['mask']
+        fracs = [(sum(mask[r['last']:r['next'] + 1]), r['next'] - r['last'] + 1) for r in rec['rows'] if 0 <= r['last'] < r['next'] < len(mask)]
+        partial = [(k_, n_) for k_, n_ in fracs if 0 < k_ < n_]
+        if not partial:
+            continue
+        k_, n_ = partial[(i * 7) % len(partial)]
+        o['threshold_kwargs']['burst_fraction_threshold'] = k_ / n_          # the correctly rounded quotient of the exact fraction
+        chosen.append(c)
+    if chosen:
+        pipeline.run_corpus(ctx, len(chosen), PREFIXES, label='threshold_equals_an_exact_fraction', cases=chosen)
 
 
 def replay(ctx, case):
